@@ -45,6 +45,44 @@ pub unsafe extern "C" fn writev(fd: libc::c_int, iov: *const libc::iovec, cnt: l
     libc::syscall(libc::SYS_writev, fd, iov, cnt) as libc::ssize_t
 }
 
+static WINSZ_QUERIES: AtomicU64 = AtomicU64::new(0);
+
+/// a size query of the client is about to happen: let a scripted window change take effect first
+unsafe fn before_size_query() {
+    let n = WINSZ_QUERIES.fetch_add(1, Ordering::SeqCst);
+    if let Ok(mut g) = SIM.try_lock() {
+        if let Some(sim) = g.as_mut() {
+            for (at, w, h) in sim.sc.winsz_ops.clone() {
+                if at == n {
+                    let ws = libc::winsize { ws_row: h, ws_col: w, ws_xpixel: 0, ws_ypixel: 0 };
+                    libc::syscall(libc::SYS_ioctl, 1, libc::TIOCSWINSZ, &ws as *const libc::winsize);
+                    sim.log(&format!("WINSZ query={n} now {w}x{h}"));
+                }
+            }
+        }
+    }
+}
+
+/// Terminal-size seam. crossterm opens `/dev/tty` for every size query (and asks the kernel through
+/// rustix, which makes raw system calls, so `ioctl` itself cannot be interposed); std opens files
+/// through the C library's `open64`, and as with `clock_gettime` the definition in the executable
+/// wins. Opens of `/dev/tty` are counted as size queries, and a scripted change of the window size
+/// takes effect just before a given query — the window can change between any two system calls,
+/// not only between two events. Everything else is passed through unchanged (`open` is variadic
+/// in C; its third argument arrives in the same register either way).
+#[no_mangle]
+pub unsafe extern "C" fn open64(path: *const libc::c_char, flags: libc::c_int, mode: libc::mode_t) -> libc::c_int {
+    if !path.is_null() && libc::strcmp(path, c"/dev/tty".as_ptr()) == 0 {
+        before_size_query();
+    }
+    libc::syscall(libc::SYS_openat, libc::AT_FDCWD, path, flags, mode as libc::c_uint) as libc::c_int
+}
+
+#[no_mangle]
+pub unsafe extern "C" fn open(path: *const libc::c_char, flags: libc::c_int, mode: libc::mode_t) -> libc::c_int {
+    open64(path, flags, mode)
+}
+
 /// Clock seam of the whole child process: every `Instant::now()` / `SystemTime::now()` of the
 /// client and of its dependencies (std calls the C library's `clock_gettime`; this definition in
 /// the executable takes precedence over the one in libc.so) reads the simulator's virtual clock.
@@ -792,7 +830,7 @@ pub mod event {
                 // the terminal really changes size, at a deterministic point
                 let ws = libc::winsize { ws_row: *h, ws_col: *w, ws_xpixel: 0, ws_ypixel: 0 };
                 unsafe {
-                    libc::ioctl(1, libc::TIOCSWINSZ, &ws);
+                    libc::syscall(libc::SYS_ioctl, 1, libc::TIOCSWINSZ, &ws as *const libc::winsize);
                 }
             }
             sim.log(&format!("EV {}", serde_json::to_string(&e.ev).unwrap_or_default()));
